@@ -842,7 +842,12 @@ theorem setter_histories (hist : List (Setter × List Int)) : ∀ tv : Spec.TV, 
 -- ---------------------------------------------------------------- scripted arguments
 
 def toSpecArg : Arg → Spec.Arg
-  | .num x => .num x | .obj x => .obj x | .thrower => .thrower
+  | .num x => .num x | .obj x => .obj x | .thrower => .thrower | .mut x m => .mut x m
+
+theorem lastMut_eq (as : List Arg) : lastMut as = Spec.lastMut (as.map toSpecArg) := by
+  induction as with
+  | nil => rfl
+  | cons a rest ih => cases a <;> simp [lastMut, Spec.lastMut, toSpecArg, ih]
 
 theorem conv_eq (as : List Arg) : ∀ i, convArgs as i = Spec.convAll (as.map toSpecArg) i := by
   induction as with
@@ -859,6 +864,10 @@ theorem conv_eq (as : List Arg) : ∀ i, convArgs as i = Spec.convAll (as.map to
       cases h : Spec.convAll (rest.map toSpecArg) (i + 1) with
       | mk l r => cases r <;> simp
     | thrower => simp [convArgs, Arg.logs, Arg.val?, toSpecArg, Spec.convAll]
+    | «mut» x m =>
+      simp only [convArgs, Arg.logs, Arg.val?, List.map_cons, toSpecArg, Spec.convAll, ih (i + 1)]
+      cases h : Spec.convAll (rest.map toSpecArg) (i + 1) with
+      | mk l r => cases r <;> simp
 
 theorem limit_arity (k : Setter) : k.limit = (toSpec k).arity := by cases k <;> rfl
 
@@ -867,22 +876,32 @@ theorem scripted_conversions (k : Setter) (as : List Arg) :
     convArgs (as.take k.limit) 0 = Spec.convAll ((as.map toSpecArg).take (toSpec k).arity) 0 := by
   rw [conv_eq, limit_arity, List.map_take]
 
-/-- a throwing valueOf: same log, exception on both sides, and the date is left untouched -/
+/-- a throwing valueOf: same log, exception on both sides, and the object is what the re-entrant calls left
+    (the same setTime arguments on both sides; the outer call has written nothing) -/
 theorem scripted_throw (k : Setter) (d : DateObj) (tv : Spec.TV) (as : List Arg) (l : List Nat)
     (h : Spec.convAll ((as.map toSpecArg).take (toSpec k).arity) 0 = (l, none)) :
-    setUTCS k d as = (d, .threw, l) ∧ Spec.setUTCS (toSpec k) tv (as.map toSpecArg) = (tv, .threw, l) := by
+    setUTCS k d as = (curAfter d (as.take k.limit), .threw, l) ∧
+    Spec.setUTCS (toSpec k) tv (as.map toSpecArg) = (Spec.curAfter tv ((as.map toSpecArg).take (toSpec k).arity), .threw, l) := by
   have hm := scripted_conversions k as
   rw [h] at hm
   simp [setUTCS, Spec.setUTCS, hm, h]
 
-/-- no exception: same log, and both sides continue with the unscripted call on the same numbers -/
+theorem curM_curS (k : Setter) (as : List Arg) :
+    lastMut (as.take k.limit) = Spec.lastMut ((as.map toSpecArg).take (toSpec k).arity) := by
+  rw [lastMut_eq, limit_arity, List.map_take]
+
+/-- no exception: same log, and both sides continue with the unscripted call on the same numbers, computed from the
+    time value read at ENTRY (re-entrant setTime calls do not change it) and stored over whatever they wrote -/
 theorem scripted_values (k : Setter) (d : DateObj) (tv : Spec.TV) (as : List Arg) (l : List Nat) (vs : List FV)
-    (h : Spec.convAll ((as.map toSpecArg).take (toSpec k).arity) 0 = (l, some vs)) :
+    (h : Spec.convAll ((as.map toSpecArg).take (toSpec k).arity) 0 = (l, some vs))
+    (hst : d.isNaN = false ∨ k = .time ∨ k = .year) :
     setUTCS k d as = ((setUTC k d vs).1, .ret (setUTC k d vs).2, l) ∧
     Spec.setUTCS (toSpec k) tv (as.map toSpecArg) = (Spec.setUTC (toSpec k) tv vs, .ret (Spec.setUTC (toSpec k) tv vs), l) := by
   have hm := scripted_conversions k as
   rw [h] at hm
-  simp [setUTCS, Spec.setUTCS, hm, h]
+  have hc : ¬ (k ≠ .time ∧ k ≠ .year ∧ d.isNaN = true) := by
+    rcases hst with h1 | h1 | h1 <;> simp [h1]
+  simp [setUTCS, Spec.setUTCS, hm, h, hc]
 
 /-- Date.UTC: the first seven arguments are converted, all of them, in order; an exception propagates with the
     same log; otherwise both sides compute on the same numbers -/
